@@ -221,6 +221,8 @@ def check(an, rep, tier):
     rep.add('P-domain', 'grid.grid_prep_opts', 'rejects a of length 3 with b '
             'of length 2', 'ok' if raised else 'violation',
             '' if raised else 'inconsistent option lengths are not rejected')
+    from .. import rules_proto as _RPZ
+    _RPZ.check_none_vs_zero(prog, rep, modules={'grid', 'stat'})
     rep.floor('S-layout', 2, 'flat grid order')
     rep.floor('S-cdf', 2, 'CDF step tables')
     rep.floor('F-inverse', 2, 'round trips')
